@@ -101,6 +101,13 @@ Example C06_nonvacuous :
   /\ snd (handle_update (fst (handle_update ex_st (ex_u 10) 2)) (ex_u 11) 2) = [].
 Proof. vm_compute. repeat split; reflexivity. Qed.
 
+(* 9b. The node's own row of the connection picture - its first-hand knowledge of its own links, on which
+       routing (C01) relies - is never changed by a received update, whatever the update lists. *)
+Theorem C06_own_row_untouched : forall st u recv,
+  aget (ns_self st) (ns_known (fst (handle_update st u recv))) = aget (ns_self st) (ns_known st).
+Proof. exact own_row_untouched. Qed.
+Print Assumptions C06_own_row_untouched.
+
 (* 10. CONCURRENT DELIVERY.  Sessions handle their messages in parallel, so the same update can be in
        the hands of several threads at once.  With the duplicate filter as one atomic test-and-set
        (Model/FloodConc.v [step_atomic]), for every number of threads, every assignment of update IDs to
